@@ -23,7 +23,9 @@ def proj(m):
     for row in m:
         r = []
         for v in row:
-            if v == NEGF or v < -1e30:
+            if v == -np.inf:
+                r.append(-888888)          # log 0
+            elif v == NEGF or v < -1e30:
                 r.append(-999999)
             else:
                 x = float(v) * 8
@@ -34,7 +36,7 @@ def proj(m):
     return out
 
 
-def run_filter(h, words, dct, ncat, cats, rng, position_coded, dup=False, single=False):
+def run_filter(h, words, dct, ncat, cats, rng, position_coded, dup=False, single=False, neginf=0.0, neg8=None):
     from depccg.types import Token, ScoringResult
     doc = [[Token.of_word(w) for w in sent] for sent in words]
     scores = []
@@ -46,7 +48,12 @@ def run_filter(h, words, dct, ncat, cats, rng, position_coded, dup=False, single
         else:
             tag = np.array([[-rng.randint(0, 200) for _ in range(ncat)] for _ in range(n)], dtype=np.float32) / 8
             dep = np.array([[-rng.randint(0, 200) for _ in range(n + 1)] for _ in range(n)], dtype=np.float32) / 8
+        if neginf:
+            # log-probabilities of impossible tags / heads
+            tag[np.array([[rng.random() < neginf for _ in range(ncat)] for _ in range(n)])] = -np.inf
+            dep[np.array([[rng.random() < neginf / 2 for _ in range(n + 1)] for _ in range(n)])] = -np.inf
         scores.append(ScoringResult(tag, dep))
+    kw = {} if neg8 is None else {'large_negative_value': neg8 / 8.0}
     tag_in = [proj(s.tag_scores) for s in scores]
     dep_in = [proj(s.dep_scores) for s in scores]
     cdict = {w: [cats[c - 1] for c in cs] for w, cs in dct.items()}
@@ -54,13 +61,13 @@ def run_filter(h, words, dct, ncat, cats, rng, position_coded, dup=False, single
         # a category listed twice for a word means the same as listing it once
         cdict = {w: cs + cs[:1] for w, cs in cdict.items()}
     ev = {'e': 'filter', 'words': words, 'dict': {w: sorted(cs) for w, cs in dct.items()}, 'ncat': ncat, 'tag_in': tag_in, 'dep_in': dep_in,
-          'raised': False, 'tag_out': tag_in, 'dep_out': dep_in, 'words_out': words}
+          'raised': False, 'tag_out': tag_in, 'dep_out': dep_in, 'words_out': words, 'neg': -999999 if neg8 is None else neg8}
     try:
         if single:
             # the single-sentence calling form: a bare token list and a bare ScoringResult
-            d2, s2 = h.parsing.apply_category_filters(doc[0], scores[0], list(cats), cdict)
+            d2, s2 = h.parsing.apply_category_filters(doc[0], scores[0], list(cats), cdict, **kw)
         else:
-            d2, s2 = h.parsing.apply_category_filters(doc, scores, list(cats), cdict)
+            d2, s2 = h.parsing.apply_category_filters(doc, scores, list(cats), cdict, **kw)
         ev['tag_out'] = [proj(s.tag_scores) for s in s2]
         ev['dep_out'] = [proj(s.dep_scores) for s in s2]
         ev['words_out'] = [[t.word for t in sent] for sent in d2]
@@ -105,7 +112,8 @@ def run(tier):
         cats = tg[:ncat]
         words = [[rng.choice(vocab) for _ in range(rng.randint(1, 6))] for _ in range(rng.randint(1, 4))]
         dct = {w: sorted(rng.sample(range(1, ncat + 1), rng.randint(0, min(ncat, 6)))) for w in rng.sample(vocab, rng.randint(0, 8))}
-        ev = run_filter(h, words, dct, ncat, cats, rng, False, dup=rng.random() < 0.3, single=len(words) == 1 and rng.random() < 0.7)
+        ev = run_filter(h, words, dct, ncat, cats, rng, False, dup=rng.random() < 0.3, single=len(words) == 1 and rng.random() < 0.7,
+                        neginf=rng.choice([0.0, 0.0, 0.1, 0.4]), neg8=rng.choice([None, None, -32768, -8000]))
         add(ev, {'words': words, 'dict': {w: len(c) for w, c in dct.items()}, 'ncat': ncat, 'src': 'random'})
     # shipped strings: well-formed, and dictionary categories belong to the inventory (by value)
     n_ship = 0
